@@ -3,3 +3,4 @@
 -/
 import D42.Props.C04Carries
 import D42.Props.GenProg
+import D42.Props.C04Scan
